@@ -65,11 +65,17 @@ CLAUSES = {
         "explicit hypotheses I_L < n and K_i ≠ ∞ (BIP32 'invalid key', probability ≈ 2^-127); plus Spec.BIP32 through the driver and "
         "the published vectors on every run",
     "xprv/xpub incl. SLIP-132 survive serialise/parse":
-        "proved (priv_parse_xprv, pub_parse_xpub, priv_xprv_defined, priv_serialize_eq_spec, pub_serialize_eq_spec, "
+        "proved (priv_parse_xprv, pub_parse_xpub, parse_rejects_wrong_length, priv_xprv_defined, priv_serialize_eq_spec, pub_serialize_eq_spec, "
         "version_tables_eq_slip132, priv_pub_point_valid) for every hash256 returning ≥ 4 bytes; the Base58Check round trip is "
         "Buidl.HD.b58RoundTrip (from C09's decodeCombined_encodeBase58), parse_sec ∘ sec = id is C03's parsePoint_sec. "
         "As coded, parse cannot recover signet/regtest (network becomes testnet) nor a non-default pub_version of a private key: "
         "the theorem states exactly which record is returned (parsedPriv / parsedPub) and that it re-serialises to the same string",
+    "malformed extended keys": "parse_rejects_wrong_length (only 78-byte payloads are accepted) + correspondence on a stream of "
+        "re-checksummed malformed payloads (cut by 1..4 bytes, extended by 1 / 33 bytes, wrong version, version of the other "
+        "class, key prefix byte 01 / 04 / other, zero key, depth 0 with parent fingerprint or child number, depth 255) and the "
+        "direct predicate `whatever parse accepts re-serialises to the same string`.  As coded (recorded, not a finding): "
+        "parse does not cross-check depth against parent fingerprint / child number — a depth-0 key with a non-zero fingerprint "
+        "or child number, or depth 255, is accepted and round-trips unchanged",
     "blind_xpub = key at the combined path":
         "proved (blind_xpub_spec, combine_paths_traverse_priv, combine_paths_traverse_pub, blind_xpub_is_key_at_combined_path)",
     "F08a": "F08a_witness (the flagged model refuses every path starting with M); pub_traverse_upper_M / priv_traverse_upper_M for the repaired code",
@@ -174,7 +180,11 @@ def _impl(t):
         import io
         cls = HDPrivateKey if op == "priv_raw_parse" else HDPublicKey
         k = cls.raw_parse(io.BytesIO(unx(t[1])), network=(None if t[2] == "-" else uns(t[2])))
-        return dump_priv(k) if op == "priv_raw_parse" else dump_pub(k)
+        try:
+            addr = xs(k.p2wpkh_address())
+        except Exception:
+            addr = REJECT
+        return (dump_priv(k) if op == "priv_raw_parse" else dump_pub(k)) + " " + addr
     if op == "spec_xprv":      # the implementation re-serialising what it parsed, against the BIP32 layout of the true fields
         return xs(HDPrivateKey.parse(uns(t[7])).xprv())
     if op == "spec_xpub":
@@ -452,7 +462,19 @@ def p_position(c):
     return got == want, got, want
 
 
-PREDICATES = {"position": p_position, "consistent": p_consistent, "hardened_refused": p_hardened_refused, "compose": p_compose,
+def p_accepts_reserialises(c):
+    """whatever extended-key string parse accepts must re-serialise to exactly that string"""
+    from buidl.hd import HDPrivateKey, HDPublicKey
+    cls = HDPrivateKey if c["kind"] == "priv" else HDPublicKey
+    try:
+        k = cls.parse(c["s"])
+    except Exception:
+        return True, REJECT, "REJECT or the same string"
+    got = k.xprv() if c["kind"] == "priv" else k.xpub()
+    return got == c["s"], got, c["s"]
+
+
+PREDICATES = {"accepts_reserialises": p_accepts_reserialises, "position": p_position, "consistent": p_consistent, "hardened_refused": p_hardened_refused, "compose": p_compose,
               "roundtrip": p_roundtrip, "vector": p_vector, "blind": p_blind, "case_insensitive": p_case_insensitive}
 
 
@@ -690,12 +712,11 @@ def run(ctx):
         lines.append(("position:pub_parse", f"pub_parse {xs(y)}"))
         lines.append(("position:spec_xprv", f"spec_xprv x{c['pv']} {c['depth']} x{c['pfp']} {c['index']} x{c['cc']} {c['secret']} {xs(x)}"))
         lines.append(("position:spec_xpub", f"spec_xpub x{c['bv']} {c['depth']} x{c['pfp']} {c['index']} x{c['cc']} x{c['sec']} {xs(y)}"))
-        fam = c["pv"] in PRIV_VERSIONS[5:]
-        netarg = "-" if (j % 3 or not fam) else xs(rng.choice(["signet", "regtest", "testnet"]))
-        lines.append(("position:priv_raw_parse", f"priv_raw_parse x{c['raw_prv']} {netarg}"))
-        famb = c["bv"] in PUB_VERSIONS[5:]
-        netarg = "-" if (j % 3 or not famb) else xs(rng.choice(["signet", "regtest", "testnet"]))
-        lines.append(("position:pub_raw_parse", f"pub_raw_parse x{c['raw_pub']} {netarg}"))
+        # raw_parse with no and with every explicit network argument; the dump carries .network and a derived address
+        nets = ["-"] + [xs(n) for n in NETS] if j % 4 == 0 else ["-", xs(NETS[j % 4])]
+        for netarg in nets:
+            lines.append(("position:priv_raw_parse", f"priv_raw_parse x{c['raw_prv']} {netarg}"))
+            lines.append(("position:pub_raw_parse", f"pub_raw_parse x{c['raw_pub']} {netarg}"))
         if j % 2 == 0:
             lines.append(("position:px_trav", f"px_trav {xs(x)} {xs(rng.choice(['m/0', 'm/2147483648', 'm/1/2h', 'M/5H/6']))}"))
             lines.append(("position:pub_trav", f"pub_trav {xs(y)} {xs(rng.choice(['m/0', 'm/3/4', 'm']))}"))
@@ -707,6 +728,43 @@ def run(ctx):
                               f"pub_parse {xs(y)}", f"pub_child {xs(y)} 3", f"pub_ser {xs(y)} {b2}", f"pub_trav {xs(y)} {xs('m/3/4')}",
                               f"pub_child {xs(y)} 3", f"pub_parse {xs(y)}", f"priv_ser {xs(x)} x{c['pv']}"])
     rec.count("positions", len(positions))
+
+    # ---- malformed extended keys with a VALID Base58Check checksum (encoded by the model's own encoder): wrong payload
+    # length, wrong version, wrong key prefix byte, depth 0 with a parent fingerprint / child number
+    mal = []   # (kind of key, label, payload)
+    for j, c in enumerate(positions):
+        if j % 3 and not ctx.thorough:
+            continue
+        for kind, raw in (("priv", bytes.fromhex(c["raw_prv"])), ("pub", bytes.fromhex(c["raw_pub"]))):
+            for cut in (1, 2, 3, 4):
+                mal.append((kind, f"cut{cut}", raw[:-cut]))
+            mal.append((kind, "cut_front", raw[1:]))
+            mal.append((kind, "ext1", raw + rbytes(rng, 1)))
+            mal.append((kind, "ext33", raw + rbytes(rng, 33)))
+            mal.append((kind, "ext1_zero", raw + b"\x00"))
+            mal.append((kind, "version", bytes.fromhex(rng.choice(["0488b21f", "00000000", "0488ade5", "ffffffff"])) + raw[4:]))
+            mal.append((kind, "version_other_class", bytes.fromhex(c["bv"] if kind == "priv" else c["pv"]) + raw[4:]))
+            mal.append((kind, "keyprefix", raw[:45] + (b"\x01" if kind == "priv" else b"\x04") + raw[46:]))
+            mal.append((kind, "keyprefix", raw[:45] + bytes([rng.choice([5, 6, 7, 0xff])]) + raw[46:]))
+            mal.append((kind, "depth0_with_parent", raw[:4] + b"\x00" + raw[5:]))
+            mal.append((kind, "depth_ff", raw[:4] + b"\xff" + raw[5:]))
+            mal.append((kind, "root_with_child", raw[:4] + b"\x00" + bytes(4) + (2**31 + 5).to_bytes(4, "big") + raw[13:]))
+            mal.append((kind, "zero_key", raw[:45] + bytes(33)))
+            mal.append((kind, "valid", raw))
+    enc = batch_parallel(drv, [f"b58check {xb(pl)}" for _, _, pl in mal], workers=ctx.workers)
+    for (kind, label, pl), e in zip(mal, enc):
+        if e == REJECT:
+            continue
+        sx = uns(e)
+        lines.append((f"malformed:{label}", f"{'priv_parse' if kind == 'priv' else 'pub_parse'} {xs(sx)}"))
+        preds.append(("accepts_reserialises", {"kind": kind, "s": sx, "why": label}))
+    rec.count("malformed_xkeys", len(mal))
+
+    # ---- unmarked numeric components in the hardened range must be refused by the public traverse
+    for (xprv, xpub, _, _, _, _, _) in keys:
+        for path in ("m/2147483648", "m/0/2147483648", "m/4294967295", "M/1/2147483649/2", "m/0/4294967296"):
+            lines.append(("pub_trav_hardened_number", f"pub_trav {xs(xpub)} {xs(path)}"))
+            preds.append(("hardened_refused", {"xpub": xpub, "path": path}))
 
     # ---- object-reuse histories: one root object traversed along several paths, one key object per path asked for
     # xprv/xpub in several prefixes, raw_serialize(), the same and different children, public traversals — in sequence
@@ -759,7 +817,7 @@ def run(ctx):
     t2 = time.time()
     seen = {}
     for (kind, line), model, impl in zip(lines, answers, impls):
-        kind = kind.split(":")[0] if not kind.startswith("position") else kind
+        kind = kind if kind.startswith(("position", "malformed")) else kind.split(":")[0]
         t = line.split(" ")
         finding = None
         # input predicate of F08a: a public traverse (directly or inside blind_xpub) of a path spelled with `M`
